@@ -180,7 +180,18 @@ def check(scn, seed, mo=None):
         for n1, tm in sorted(m_waits, key=lambda w: w[1]):
             by_name.setdefault(n1, []).append(tm)
         seen = {}
-        for n1, te in sorted(e_waits, key=lambda w: w[1]):
+        # ("the same path": with latency a reply may miss a Task's TimeoutSeconds that it meets in the zero-latency model;
+        # the run then legitimately goes another way - e.g. straight to the Catch instead of through three retries - and
+        # its Waits are not the model's.  The states entered, as a multiset, tell.)
+        e_entered = sorted(str(d.get("name")) for n in res.world.nodes for (st_, t_, a_, typ_, d, smt_) in n.history_log
+                           if a_ == arn and typ_.endswith("StateEntered") and isinstance(d, dict))
+        m_entered = sorted(str(x[2]) for x in mo.transitions if x[1] == "entered")
+        e_reqs = sorted(r["fn"] for r in res.world.workers.requests)
+        m_reqs = sorted(x[1] for x in mo.requests)
+        same_path = e_entered == m_entered and e_reqs == m_reqs      # (retries enter no state: the requests count them)
+        if not same_path:
+            probes["never-early-skipped:other-path-under-latency"] = 1
+        for n1, te in (sorted(e_waits, key=lambda w: w[1]) if same_path else []):
             k = seen.get(n1, 0)
             seen[n1] = k + 1
             lst = by_name.get(n1, [])
